@@ -38,6 +38,8 @@ type Handler struct {
 	// Publish controls what happens on RECORD: forward packets of a publisher
 	// into the stream created at ANNOUNCE.
 	pubStreams map[*gortsplib.ServerSession]*gortsplib.ServerStream
+	sessNames  map[*gortsplib.ServerSession]string
+	connNames  map[*gortsplib.ServerConn]string
 
 	// Optional overrides / hooks.
 	Auth         func(conn *gortsplib.ServerConn, req *base.Request) bool
@@ -105,25 +107,45 @@ func (h *Handler) authFail(conn *gortsplib.ServerConn, req *base.Request) bool {
 // OnConnOpen implements ServerHandlerOnConnOpen.
 func (h *Handler) OnConnOpen(ctx *gortsplib.ServerHandlerOnConnOpenCtx) {
 	h.add(CB{Kind: "conn.open", Conn: ctx.Conn})
-	h.W.Log.Add("srv", "conn.open", "%s", ctx.Conn.NetConn().RemoteAddr())
+	name := fmt.Sprintf("srv:%s:t%d", ctx.Conn.NetConn().RemoteAddr(), ctx.Conn.Transport().Tunnel)
+	h.mu.Lock()
+	if h.connNames == nil {
+		h.connNames = map[*gortsplib.ServerConn]string{}
+	}
+	h.connNames[ctx.Conn] = name
+	h.mu.Unlock()
+	h.W.Log.Add(name, "conn.open", "")
 }
 
 // OnConnClose implements ServerHandlerOnConnClose.
 func (h *Handler) OnConnClose(ctx *gortsplib.ServerHandlerOnConnCloseCtx) {
 	h.add(CB{Kind: "conn.close", Conn: ctx.Conn, Err: ctx.Error})
-	h.W.Log.Add("srv", "conn.close", "%s %v", ctx.Conn.NetConn().RemoteAddr(), ctx.Error)
+	h.mu.Lock()
+	name := h.connNames[ctx.Conn]
+	h.mu.Unlock()
+	h.W.Log.Add(name, "conn.close", "%v", ctx.Error)
 }
 
 // OnSessionOpen implements ServerHandlerOnSessionOpen.
 func (h *Handler) OnSessionOpen(ctx *gortsplib.ServerHandlerOnSessionOpenCtx) {
 	h.add(CB{Kind: "session.open", Conn: ctx.Conn, Session: ctx.Session})
-	h.W.Log.Add("srv", "session.open", "")
+	name := "srv:sess:" + ctx.Conn.NetConn().RemoteAddr().String()
+	h.mu.Lock()
+	if h.sessNames == nil {
+		h.sessNames = map[*gortsplib.ServerSession]string{}
+	}
+	h.sessNames[ctx.Session] = name
+	h.mu.Unlock()
+	h.W.Log.Add(name, "session.open", "")
 }
 
 // OnSessionClose implements ServerHandlerOnSessionClose.
 func (h *Handler) OnSessionClose(ctx *gortsplib.ServerHandlerOnSessionCloseCtx) {
 	h.add(CB{Kind: "session.close", Session: ctx.Session, Err: ctx.Error})
-	h.W.Log.Add("srv", "session.close", "%v", ctx.Error)
+	h.mu.Lock()
+	name := h.sessNames[ctx.Session]
+	h.mu.Unlock()
+	h.W.Log.Add(name, "session.close", "%v", ctx.Error)
 	h.mu.Lock()
 	st := h.pubStreams[ctx.Session]
 	delete(h.pubStreams, ctx.Session)
